@@ -35,6 +35,9 @@ func RandFlags(r *Rand) uint {
 		return 0
 	case r.P(1, 12):
 		return Pick(r, StrayFlags)
+	case r.P(1, 6):
+		// any numeric value 0..31, read literally (includes the undefined bit 1)
+		return uint(r.Intn(32))
 	}
 	return Pick(r, AllFlagSets())
 }
